@@ -77,9 +77,15 @@ def run(ctx, cfg):
         extra.append({"kind": "file", "text": dc["prologue"] + "".join(dc["texts"])})
     pool = [c["text"] for c in S["valid"][:200]] + [c["text"] for c in S["reject"][:100]]
     other = ["INPUT(1) = w[1,2]\n", "seesaw[", "", "length a = 5\n", "x = a( b\n", "state e4 = [e4]"]
-    for _ in range(8 if quick else 60):
-        before = [[rng.choice(["pil", "seesaw"]), rng.choice(pool + other)] for _ in range(rng.randint(1, 6))]
-        extra.append({"kind": "history", "text": rng.choice(pool), "before": before})
+    # layouts that depend on process-wide pyparsing settings (carriage returns, tabs) are preferred as the probed text, and
+    # every history contains at least one call into each dialect (the two grammars share pyparsing's global defaults)
+    crpool = [t for t in pool if "\r" in t] or pool
+    tabpool = [t for t in pool if "\t" in t] or pool
+    for j in range(24 if quick else 120):
+        before = [[rng.choice(["pil", "seesaw"]), rng.choice(pool + other)] for _ in range(rng.randint(1, 5))]
+        before.insert(rng.randrange(len(before) + 1), ["pil", rng.choice(["length a = 5\n", "X = a( b )\r\n", "x = a( b\n"])])
+        before.insert(rng.randrange(len(before) + 1), ["seesaw", rng.choice(["INPUT(1) = w[1,2]\n", "seesaw[", "INPUT(1) = w[1,2]\r\n"])])
+        extra.append({"kind": "history", "text": rng.choice([crpool, tabpool, pool][j % 3]), "before": before})
     out = run_oracle(ORACLE, {"cases": extra})
     spec += out["failures"]
     ctx.cov["oracle_checked"] = out["checked"]
